@@ -903,3 +903,33 @@ func createdAsChild(c *Ctx, v ssa.Value) string {
 	}
 	return ""
 }
+
+// ---- M6 (C04): x * y is a new value --------------------------------------------------
+
+func ruleM6(c *Ctx, rule string) {
+	r := c.R
+	m := c.fx()
+	var cb *ssa.Function
+	for _, fn := range m.funcs {
+		if fn.Parent() != nil && fn.Parent().Name() == "multiply" {
+			cb = fn
+		}
+	}
+	if cb == nil {
+		r.Fatal("anchor missing: the crossFunction callback built by multiply")
+		return
+	}
+	s := m.sums[cb]
+	leak := ""
+	for x := range s.results[0].Direct {
+		if x.o.kind == kParam && !x.back {
+			leak = x.String()
+		}
+	}
+	key := funcKey(cb) + "/result"
+	if leak == "" && s.results[0].Fresh {
+		r.Discharge(rule, key, c.P.pos(cb.Pos()), "every result of the merge callback is allocated during the call (a copy or a new scalar)")
+	} else {
+		r.Finding(rule, key, c.P.pos(cb.Pos()), "the merge callback can return one of its operands itself ("+leak+") instead of a copy: an update applied to the result of `x * y` rewrites x")
+	}
+}
